@@ -441,3 +441,12 @@ Proof.
               (eq_sym (app_nil_r plan1)) Hs1) as (Hc & _).
   apply Hc; assumption.
 Qed.
+
+Lemma sigs_eqb_true_eq : forall a b, sigs_eqb a b = true -> a = b.
+Proof.
+  unfold sigs_eqb. induction a as [|x l IH]; intros [|z b] H; cbn in H; try discriminate; [reflexivity|].
+  apply andb_true_iff in H. destruct H as (Hl & Hf). apply andb_true_iff in Hf. destruct Hf as (Hx & Hf).
+  unfold sig_eqb in Hx. cbn in Hx. apply andb_true_iff in Hx. destruct Hx as (A & B).
+  apply Nat.eqb_eq in A. apply Z.eqb_eq in B. destruct x, z. cbn in *. subst. f_equal.
+  apply IH. rewrite Hl, Hf. reflexivity.
+Qed.
